@@ -40,7 +40,7 @@ fn json_arrays<'a>(v: &'a mut Value, old: &[u8], out: &mut Vec<&'a mut Vec<Value
 /// replace the (unique) occurrence of `old` inside the `codec` form of the honest object by `new`
 fn inject(api: &Api, kind: Kind, native: &[u8], range: Option<std::ops::Range<usize>>, old: &[u8], new: &[u8], codec: Codec) -> Result<Blob, String> {
     match codec {
-        Codec::Native => {
+        Codec::Native | Codec::Clone => {
             let r = range.ok_or("field has no native position")?;
             if &native[r.clone()] != old {
                 return Err("native locator: honest value not at the layout position".into());
@@ -170,10 +170,41 @@ fn explore(api: &Api, seed: u64, cx: &mut Cx) {
     let hsk = sp.field(Kind::Setup, "server_sk").of(&f.setup).to_vec();
     for (what, honest_v, menu, is_pk) in [("PublicKey", &hpk, g.invalid_elems(&hpk), true), ("PrivateKey", &hsk, g.invalid_scalars(&hsk), false)] {
         for codec in codecs {
-            let wrap = |b: &[u8]| match codec {
-                Codec::Native => Blob::n(b),
-                Codec::Bincode => Blob::new(codec, b.to_vec()),
-                Codec::Json => Blob::new(codec, serde_json::to_vec(&b.iter().map(|x| json!(*x)).collect::<Vec<_>>()).unwrap()),
+            // the serde form is taken from the implementation (its layout is not assumed): the honest key's bytes are
+            // located inside it and replaced
+            let honest_form = match api.ke_key_encode(is_pk, honest_v, codec) {
+                Ok(b) => b,
+                Err(e) => {
+                    cx.violate(&format!("machinery/locator/{}/{:?}", what, codec), format!("cannot encode the honest key: {:?}", e));
+                    continue;
+                }
+            };
+            let wrap = |b: &[u8]| -> Blob {
+                match codec {
+                    Codec::Native | Codec::Clone => Blob::n(b),
+                    Codec::Bincode => {
+                        let pos = find_all(&honest_form.bytes, honest_v);
+                        if pos.len() == 1 && b.len() == honest_v.len() {
+                            let mut m = honest_form.bytes.clone();
+                            m[pos[0]..pos[0] + b.len()].copy_from_slice(b);
+                            Blob::new(codec, m)
+                        } else {
+                            Blob::new(codec, b.to_vec())
+                        }
+                    }
+                    Codec::Json => {
+                        let arr = |b: &[u8]| b.iter().map(|x| json!(*x)).collect::<Vec<Value>>();
+                        let mut v: Value = serde_json::from_slice(&honest_form.bytes).unwrap_or(Value::Null);
+                        let mut hits = vec![];
+                        json_arrays(&mut v, honest_v, &mut hits);
+                        if hits.len() == 1 {
+                            *hits.pop().unwrap() = arr(b);
+                            Blob::new(codec, serde_json::to_vec(&v).unwrap())
+                        } else {
+                            Blob::new(codec, serde_json::to_vec(&arr(b)).unwrap())
+                        }
+                    }
+                }
             };
             let dec = |b: &Blob| if is_pk { api.ke_pk_serde(b) } else { api.ke_sk_serde(b) };
             cx.begin_case(json!({"decoder": what, "codec": format!("{:?}", codec), "entry": "honest (self-check)"}));
